@@ -1015,7 +1015,18 @@ pub fn stages(ctx: &Ctx) -> Vec<Stage> {
         let mut rng = Rng::for_case(seed, "c14-random", i);
         let real = i % 2 == 0;
         let deg = 1 + (i / 2 % 10) as usize;
-        let roots = gen_roots(&mut rng, deg, real);
+        let mut roots = gen_roots(&mut rng, deg, real);
+        if rng.chance(0.1) {
+            // a root at exactly 0 (constant coefficient exactly zero), in every degree incl. 1 and 2:
+            // move the (real, for real polynomials) root nearest to the origin there if the others stay separated
+            let k = (0..deg).filter(|k| !real || roots[*k].im == 0.0).min_by(|a, b| roots[*a].norm().partial_cmp(&roots[*b].norm()).unwrap());
+            if let Some(k) = k {
+                if (0..deg).all(|j| j == k || roots[j].norm() >= MIN_SEP) {
+                    roots[k] = C::new(0.0, 0.0);
+                    rep.count(&format!("random/cases_with_a_root_at_exactly_zero/degree_{}", deg.min(3)), 1);
+                }
+            }
+        }
         let lead = gen_lead(&mut rng, real);
         let asc = expand(&roots, lead);
         // real polynomials also go through the complex type now and then
